@@ -158,7 +158,7 @@ Definition check_path (pre : jv) (op : pop) (err : bool) (post : jv) (res : list
   let g := keys_unique pre in
   match op with
   | OGet p =>
-    let want := map native (get_all_top p pre) in
+    let want := match get p pre with None => [] | Some _ => map native (get_all_top p pre) end in
     let agree_res :=
       match res with
       | [r] => match want with
